@@ -48,6 +48,13 @@ def observe_suspended(w: progs.World, problems: List[str], records: List[dict], 
         problems.append(f"inspect_frame raised {type(e).__name__}: {e}")
     rec = {"lasti": w.frame.f_lasti, "got": got, "want": want, "warnings": ws, "blocks": blocks}
     records.append(rec)
+    # metadata: the `as` target recorded by the generated source (None when the item has none) — also for an exiting context
+    if not ws:
+        tof = getattr(w, "target_of", {})
+        for c in ctxs:
+            if c.obj is not None and id(c.obj) in tof and type(c.obj).__name__ in ("Mgr", "AMgr") and c.varname != tof[id(c.obj)]:
+                problems.append(f"at f_lasti={w.frame.f_lasti}: varname {c.varname!r} for manager "
+                                f"{ids.get(id(c.obj))} (exiting={c.is_exiting}), the source says {tof[id(c.obj)]!r}")
     if mode == "trickery":
         if got != want:
             problems.append(f"at f_lasti={w.frame.f_lasti}: contexts {got} but the managers entered and not exited are {want}")
@@ -89,6 +96,10 @@ class C01(PropCheck):
             for _ in range(reps):
                 out.append({"k": "prog", "kind": kind, "pseed": seed, "depth": depth,
                             "choices": [rng.randrange(6) for _ in range(rng.randint(0, 14))]})
+        for ci, (kind, _src) in enumerate(progs.CORPUS):
+            if kind != "sync":
+                for ch in ([], [1], [0, 1], [1, 0, 1], [0, 0, 1, 1], [1, 1, 0, 1, 0], [0, 1, 1, 0, 1, 1]):
+                    out.append({"k": "prog", "kind": kind, "corpus": ci, "pseed": 0, "depth": 0, "choices": ch})
         return out
 
     def known_witnesses(self):
@@ -100,7 +111,7 @@ class C01(PropCheck):
             return self.run_f2()
         if case["k"] == "f12":
             return self.run_f12()
-        src = progs.gen_program(random.Random(case["pseed"]), case["kind"], case["depth"])
+        src = progs.CORPUS[case["corpus"]][1] if "corpus" in case else progs.gen_program(random.Random(case["pseed"]), case["kind"], case["depth"])
         case["_src"] = src
         probs: List[str] = []
         recs: List[dict] = []
